@@ -151,7 +151,13 @@ def _step(n: int, m: int, flavour: str, N: int, K: int, new_avail: bool,
             o = pr.request.url.origin
             P.cover("assigned")
             for prop in ("C01", "C10"):
-                P.check(any(c is x for x in L1), "assigned-connection-is-pooled", "step:assigned-unpooled", prop=prop)
+                # (an idle connection may be evicted later in the same pass for
+                # another request; it is then closed before use and the
+                # request is re-queued through ConnectionNotAvailable - the
+                # connection-contract harnesses check that a closed
+                # connection refuses with nothing written)
+                P.check(any(c is x for x in L1) or any(c is x for x in closing),
+                        "assigned-connection-is-pooled-or-evicted", "step:assigned-unpooled", prop=prop)
                 P.check(c.can_handle_request(o), "assigned-connection-matches-origin",
                         "step:assigned-wrong-origin", prop=prop)
                 P.check(c.created or c.is_available(), "assigned-connection-available",
